@@ -15,7 +15,7 @@ from ..symx import Expander, TupleV, ListV
 from ..ncf import M
 from .. import ncf, anf
 from ..anf import R, Unsupported
-from .common import struct_ob, formula_ob, guard, last_return, gradient_lists_in_order
+from .common import struct_ob, formula_ob, guard, last_return, gradient_lists_in_order, U
 from .gpm import gp_expander, refs, mob, REL
 from ..report import AnalysisError
 
@@ -32,7 +32,7 @@ def loo_expander(prog, ci):
     ex.n_atom = R.sym("n")
 
     def hook(e, node, env):
-        f = ast.unparse(node.func)
+        f = U(node.func)
         if f in ("solve_triangular", "cholesky", "self.cov.build_covariance", "self.mean.build_mean"):
             return R.sym(f"<{f}>")
         if f == "self.cov.covariance_and_gradients":
@@ -163,17 +163,17 @@ def run(prog, tier):
     src = {}
     for st in ast.walk(fn):
         if isinstance(st, ast.Assign) and len(st.targets) == 1:
-            src.setdefault(ast.unparse(st.targets[0]), []).append(st)
+            src.setdefault(U(st.targets[0]), []).append(st)
     ex = loo_expander(prog, ci)
     env = {fn.args.args[1].arg: R.sym("theta")}
-    cov_loop = [l for l in fn.body if isinstance(l, ast.For) and ast.unparse(l.iter) == "grad_K"]
-    mean_loop = [l for l in fn.body if isinstance(l, ast.For) and ast.unparse(l.iter) == "grad_mu"]
+    cov_loop = [l for l in fn.body if isinstance(l, ast.For) and U(l.iter) == "grad_K"]
+    mean_loop = [l for l in fn.body if isinstance(l, ast.For) and U(l.iter) == "grad_mu"]
     if len(cov_loop) != 1 or len(mean_loop) != 1:
         raise AnalysisError("anchor vanished: gradient loops in loo_likelihood_gradient")
     guard(lambda: ex.run_until(fn.body, env, cov_loop[0]))
     for lp_, elem, what, ref in ((cov_loop[0], "dK", "covariance", "cov"), (mean_loop[0], "dmu", "mean", "mean")):
         e2 = dict(env)
-        e2[ast.unparse(lp_.target)] = R.sym(elem)
+        e2[U(lp_.target)] = R.sym(elem)
         ex2 = loo_expander(prog, ci)
         guard(lambda: ex2.exec_block([s for s in lp_.body if isinstance(s, ast.Assign)], e2))
         g = e2.get("g")
@@ -191,7 +191,7 @@ def run(prog, tier):
     # ---------------------------------------------------------------- slice layout
     for mname in ("loo_likelihood_gradient", "marginal_likelihood_gradient"):
         c3, fn = prog.method("GpRegressor", mname)
-        txt = ast.unparse(fn)
+        txt = U(fn)
         ok = (("grad[self.cov_slice] = array(cov_gradients)" in txt and "grad[self.mean_slice] = array(mean_gradients)" in txt)
               if mname.startswith("loo") else
               ("grad[self.mean_slice] = array([(alpha * dmu).sum() for dmu in grad_mu])" in txt
@@ -201,8 +201,8 @@ def run(prog, tier):
         obs.append(struct_ob("slice-layout", qual(c3, fn), ok,
                              "mean / covariance gradients must be computed from and scattered into their own slices", REL, fn.lineno))
     c3, init = prog.method("GpRegressor", "__init__")
-    src = {ast.unparse(s.targets[0]): ast.unparse(s.value) for s in ast.walk(init) if isinstance(s, ast.Assign) and len(s.targets) == 1}
-    txt = ast.unparse(init)
+    src = {U(s.targets[0]): U(s.value) for s in ast.walk(init) if isinstance(s, ast.Assign) and len(s.targets) == 1}
+    txt = U(init)
     ok = (src.get("self.hp_bounds") == "copy(self.mean.bounds)" and "self.hp_bounds.extend(copy(self.cov.bounds))" in txt
           and src.get("self.mean_slice") == "slice(0, self.mean.n_params)"
           and src.get("self.cov_slice") == "slice(self.mean.n_params, self.n_hyperpars)"
@@ -211,38 +211,38 @@ def run(prog, tier):
     obs.append(struct_ob("slice-layout", qual(c3, init), ok,
                          "bounds, labels and slices must all be mean-first then covariance", REL, init.lineno))
     # selector wiring
-    ifs = [s for s in init.body if isinstance(s, ast.If) and ast.unparse(s.test) == "cross_val"]
+    ifs = [s for s in init.body if isinstance(s, ast.If) and U(s.test) == "cross_val"]
     ok = False
     if len(ifs) == 1:
-        a = {ast.unparse(s.targets[0]): ast.unparse(s.value) for s in ifs[0].body if isinstance(s, ast.Assign)}
-        b = {ast.unparse(s.targets[0]): ast.unparse(s.value) for s in ifs[0].orelse if isinstance(s, ast.Assign)}
+        a = {U(s.targets[0]): U(s.value) for s in ifs[0].body if isinstance(s, ast.Assign)}
+        b = {U(s.targets[0]): U(s.value) for s in ifs[0].orelse if isinstance(s, ast.Assign)}
         ok = (a == {"self.model_selector": "self.loo_likelihood", "self.model_selector_gradient": "self.loo_likelihood_gradient"}
               and b == {"self.model_selector": "self.marginal_likelihood", "self.model_selector_gradient": "self.marginal_likelihood_gradient"})
     obs.append(struct_ob("selector-wiring", qual(c3, init), ok,
                          "the selector and its value-and-gradient form must be the same criterion on both arms of cross_val", REL, init.lineno))
     c4, bc = prog.method("GpRegressor", "bfgs_cost_func")
-    body = [ast.unparse(s) for s in bc.body]
+    body = [U(s) for s in bc.body]
     obs.append(struct_ob("selector-wiring", qual(c4, bc), body == ["y, grad_y = self.model_selector_gradient(theta)", "return (-y, -grad_y)"],
                          f"the BFGS cost must be the negated selector and negated gradient: {body}", REL, bc.lineno))
 
     # ---------------------------------------------------------------- bounds passed / multistart
     c5, de = prog.method("GpRegressor", "differential_evo")
-    calls = [n for n in ast.walk(de) if isinstance(n, ast.Call) and ast.unparse(n.func) == "differential_evolution"]
-    ok = len(calls) == 1 and (lambda b: b is not None and ast.unparse(b) == "self.hp_bounds")(get_kw(calls[0], "bounds", 1)) \
-        and ast.unparse(get_kw(calls[0], "func", 0)) == "lambda x: -self.model_selector(x)"
+    calls = [n for n in ast.walk(de) if isinstance(n, ast.Call) and U(n.func) == "differential_evolution"]
+    ok = len(calls) == 1 and (lambda b: b is not None and U(b) == "self.hp_bounds")(get_kw(calls[0], "bounds", 1)) \
+        and U(get_kw(calls[0], "func", 0)) == "lambda x: -self.model_selector(x)"
     obs.append(struct_ob("bounds-passed", qual(c5, de), ok,
-                         f"differential evolution must minimise -selector over self.hp_bounds: `{ast.unparse(calls[0]) if calls else None}`",
+                         f"differential evolution must minimise -selector over self.hp_bounds: `{U(calls[0]) if calls else None}`",
                          REL, de.lineno))
     c6, lb = prog.method("GpRegressor", "launch_bfgs")
-    calls = [n for n in ast.walk(lb) if isinstance(n, ast.Call) and ast.unparse(n.func) == "fmin_l_bfgs_b"]
-    ok = len(calls) == 1 and (lambda b: b is not None and ast.unparse(b) == "self.hp_bounds")(get_kw(calls[0], "bounds")) \
-        and ast.unparse(get_kw(calls[0], "func", 0)) == "self.bfgs_cost_func" \
-        and (lambda a: a is not None and ast.unparse(a) == "False")(get_kw(calls[0], "approx_grad"))
+    calls = [n for n in ast.walk(lb) if isinstance(n, ast.Call) and U(n.func) == "fmin_l_bfgs_b"]
+    ok = len(calls) == 1 and (lambda b: b is not None and U(b) == "self.hp_bounds")(get_kw(calls[0], "bounds")) \
+        and U(get_kw(calls[0], "func", 0)) == "self.bfgs_cost_func" \
+        and (lambda a: a is not None and U(a) == "False")(get_kw(calls[0], "approx_grad"))
     obs.append(struct_ob("bounds-passed", qual(c6, lb), ok,
                          f"L-BFGS-B must minimise bfgs_cost_func with its analytic gradient within self.hp_bounds: "
-                         f"`{ast.unparse(calls[0]) if calls else None}`", REL, lb.lineno))
+                         f"`{U(calls[0]) if calls else None}`", REL, lb.lineno))
     c7, ms = prog.method("GpRegressor", "multistart_bfgs")
-    txt = ast.unparse(ms)
+    txt = U(ms)
     ok = ("lwr, upr = [array([k[i] for k in self.hp_bounds]) for i in [0, 1]]" in txt
           and "starting_positions.append(0.5 * (lwr + upr))" in txt
           and "lwr + (upr - lwr) * random(size=len(self.hp_bounds))" in txt
